@@ -63,6 +63,7 @@ func init() {
 		c.mayRow(hm["suspect"], "C07/suspect-silent", "a suspect claim never emits an event (a suspect is still a member)", classIn("EVT:*"), func(g getf, e *gea.Effect) bool { return false })
 		c.mayRow(hm["timer"], "C07/timer-silent", "the suspicion timer emits no event itself (it goes through the dead handler)", classIn("EVT:*"), func(g getf, e *gea.Effect) bool { return false })
 
+		checkLeaveFlagMonotone(c, "C07")
 		// 2. Members()/NumMembers() filter exactly on dead/left
 		checkMembersFilter(c)
 
